@@ -4,7 +4,8 @@
 //! set of (source, type, target) triples that were added and not removed — nothing else — and
 //! compares every forward / inverse / existence query of the implementation with it.
 use crate::common::*;
-use opcua::server::address_space::references::{Reference, References};
+use opcua::server::address_space::references::{Reference, ReferenceDirection, References};
+use opcua::types::BrowseDirection;
 use opcua::types::NodeId;
 use std::collections::BTreeSet;
 
@@ -160,8 +161,9 @@ impl Prop for C28 {
             let mut live: Vec<Triple> = Vec::new(); // generator-side bias only
             // half of the cases start with a piece of the reference type hierarchy
             if rng.chance(1, 2) {
+                let chain_only = rng.chance(1, 3);
                 for (i, j) in [(0usize, 1usize), (0, 2), (1, 2)] {
-                    if rng.chance(2, 3) {
+                    if (chain_only && (i, j) != (0, 2)) || (!chain_only && rng.chance(2, 3)) {
                         live.push((type_rank[i], HAS_SUBTYPE, type_rank[j]));
                         out.push(format!("ins {} {} {}", type_rank[i], type_rank[j], HAS_SUBTYPE));
                     }
@@ -176,8 +178,37 @@ impl Prop for C28 {
                     }
                 }
             };
-            for _ in 0..len {
-                match rng.weighted(&[10, 2, 6, 3, 2, 2, 2, 1]) {
+            let self_ref_at_end = rng.chance(1, 40);
+            for step in 0..=len {
+                if step == len {
+                    // the documented panic of insert_reference (ends the case: the rest would be skipped)
+                    if self_ref_at_end {
+                        let x = *rng.pick(&nodes);
+                        out.push(format!("ins {} {} {}", x, x, rng.pick(&types)));
+                    }
+                    break;
+                }
+                match rng.weighted(&[10, 2, 6, 3, 2, 2, 2, 1, 2, 2, 1]) {
+                    8 => {
+                        // insert with an explicit direction, sometimes a HasTypeDefinition reference
+                        let (a, b2) = pair(rng, &nodes);
+                        let t = if rng.chance(1, 3) { 40 } else { *rng.pick(&types) };
+                        let inverse = rng.chance(1, 2);
+                        live.push(if inverse { (b2, t, a) } else { (a, t, b2) });
+                        out.push(format!("insd {} {} {} {}", a, b2, t, b(inverse)));
+                    }
+                    9 => {
+                        let f = match rng.below(4) {
+                            0 => "-".to_string(),
+                            1 => format!("{}:0", rng.pick(&types)),
+                            _ => format!("{}:1", if rng.chance(1, 2) { 44 } else { *rng.pick(&types) }),
+                        };
+                        let d = *rng.pick(&["f", "i", "b", "b", "x"]);
+                        out.push(format!("bydir {} {} {}", rng.pick(&nodes), d, f));
+                    }
+                    10 => {
+                        out.push(format!("typeid {}", rng.pick(&nodes)));
+                    }
                     0 => {
                         // insert; often the opposite of / a duplicate of a live reference
                         let (a, t, b) = if !live.is_empty() && rng.chance(2, 5) {
@@ -239,7 +270,10 @@ impl Prop for C28 {
                         out.push(format!("{} {} {}", if rng.chance(1, 2) { "fwd" } else { "inv" }, x, f));
                     }
                     _ => {
-                        let (ty, sub) = if rng.chance(1, 2) {
+                        let (ty, sub) = if rng.chance(1, 4) {
+                            // the pair that is related only through the type in between
+                            (type_rank[0], type_rank[2])
+                        } else if rng.chance(1, 2) {
                             let i = rng.below(2) as usize;
                             (type_rank[i], type_rank[rng.range(i as i64 + 1, 2) as usize])
                         } else {
@@ -346,6 +380,74 @@ impl Runner for R {
                 };
                 (s, v)
             }
+            ["insd", src, node, t, inv] => {
+                // References::insert with an explicit direction (what AddressSpace::insert uses)
+                let (Some(src), Some(node), Some(t)) = (p(src), p(node), p(t)) else { return ("bad-op".into(), Verdict::Ok) };
+                let inverse = *inv == "1";
+                let dir = if inverse { ReferenceDirection::Inverse } else { ReferenceDirection::Forward };
+                self.refs.insert(&nid(src), &[(&nid(node), &nid(t), dir)]);
+                if inverse {
+                    self.set.insert((node, t, src));
+                } else {
+                    self.set.insert((src, t, node));
+                }
+                let (o, v) = self.observe("insd");
+                (format!("ok {}", o), v)
+            }
+            ["bydir", n, d, f] => {
+                let (Some(n), Some(f)) = (p(n), parse_filter(f)) else { return ("bad-op".into(), Verdict::Ok) };
+                let dir = match *d {
+                    "f" => BrowseDirection::Forward,
+                    "i" => BrowseDirection::Inverse,
+                    "b" => BrowseDirection::Both,
+                    _ => BrowseDirection::Invalid,
+                };
+                let filter = f.map(|(t, i)| (nid(t), i));
+                let (l, idx) = self.refs.find_references_by_direction(&nid(n), dir, filter);
+                let idx = idx.min(l.len());
+                let part = |x: &[Reference]| -> Vec<(u32, u32)> {
+                    let mut v: Vec<(u32, u32)> = x.iter().map(|r| (tok(&r.reference_type), tok(&r.target_node))).collect();
+                    v.sort();
+                    v
+                };
+                let (fw, iv) = (part(&l[..idx]), part(&l[idx..]));
+                let sh = |v: &Vec<(u32, u32)>| format!("[{}]", v.iter().map(|(t, b)| format!("{}>{}", t, b)).collect::<Vec<_>>().join(","));
+                // specification: the forward part is the node's references, the rest those pointing at it
+                let admits = |t: u32| f.map_or(true, |(ft, i)| spec_type_matches(&self.set, ft, t, i));
+                let mut want_f: Vec<(u32, u32)> = self.set.iter().filter(|(a, t, _)| *a == n && admits(*t)).map(|(_, t, b)| (*t, *b)).collect();
+                let mut want_i: Vec<(u32, u32)> = self.set.iter().filter(|(_, t, b)| *b == n && admits(*t)).map(|(a, t, _)| (*t, *a)).collect();
+                want_f.sort();
+                want_i.sort();
+                match *d {
+                    "f" => want_i.clear(),
+                    "i" => want_f.clear(),
+                    "b" => {}
+                    _ => {
+                        want_f.clear();
+                        want_i.clear();
+                    }
+                }
+                let v = if fw != want_f {
+                    Verdict::fail("forward", "bydir", format!("forward part {:?} want {:?}", fw, want_f))
+                } else if iv != want_i {
+                    Verdict::fail("inverse", "bydir", format!("inverse part {:?} want {:?}", iv, want_i))
+                } else {
+                    Verdict::Ok
+                };
+                (format!("ok {} {} {}", idx, sh(&fw), sh(&iv)), v)
+            }
+            ["typeid", n] => {
+                let Some(n) = p(n) else { return ("bad-op".into(), Verdict::Ok) };
+                let got = self.refs.get_type_id(&nid(n)).map(|x| tok(&x));
+                // some HasTypeDefinition (i=40) target of the node, none when there is none
+                let cands: Vec<u32> = self.set.iter().filter(|(a, t, _)| *a == n && *t == 40).map(|(_, _, b)| *b).collect();
+                let v = match got {
+                    None if cands.is_empty() => Verdict::Ok,
+                    Some(g) if cands.contains(&g) => Verdict::Ok,
+                    _ => Verdict::fail("type_id", "typeid", format!("got {:?} candidates {:?}", got, cands)),
+                };
+                (format!("ok {}", got.map_or("-".to_string(), |g| g.to_string())), v)
+            }
             ["match", ty, sub, i] => {
                 let (Some(ty), Some(sub)) = (p(ty), p(sub)) else { return ("bad-op".into(), Verdict::Ok) };
                 let i = *i == "1";
@@ -354,6 +456,16 @@ impl Runner for R {
                 (format!("ok {}", b01(r)), v)
             }
             _ => ("bad-op".to_string(), Verdict::Ok),
+        }
+    }
+
+    /// `insert_reference` documents and implements a panic for a reference from a node to itself
+    /// (the services refuse such a request before it gets here: property C33).  The property says
+    /// nothing about it; any other panic is a failure.
+    fn on_panic(&self, toks: &[&str]) -> Verdict {
+        match toks {
+            ["ins", a, b, _] if a == b => Verdict::Ok,
+            _ => Verdict::fail("no_panic", "-", "implementation panicked"),
         }
     }
 }
